@@ -155,8 +155,8 @@ def cone_files(pid):
         if f in seen or not (THEORIES / f).exists():
             continue
         seen.add(f)
-        for m in re.finditer(r"From\s+NpTdms\s+Require\s+(?:Import|Export)?\s*([^.]*(?:\.[A-Za-z_][^.\s]*)*)\.",
-                             (THEORIES / f).read_text()):
+        for m in re.finditer(r"From\s+NpTdms\s+Require\s+(?:Import\s+|Export\s+)?(.*?)\.(?=\s|$)",
+                             (THEORIES / f).read_text(), flags=re.S):
             for mod in m.group(1).split():
                 todo.append(mod.replace(".", "/") + ".v")
     return seen
